@@ -593,6 +593,24 @@ func (c *specCtx) call(t *ast.CallExpr, n *SpecNode) Val {
 		// bytesEq(a, b): same length and same contents
 		a, b := arg(0), arg(1)
 		return boolVal(c.bytesEq(a, b))
+	case "matches":
+		// matches(p, s, c0[, n]): the first n (default len(p)) bytes of slice p equal string s from
+		// position c0. Quantified over the raw array index so that any access to p's memory triggers it.
+		p, s, c0 := arg(0), arg(1), to64(c.coerceInt(arg(2)))
+		n := p.sLen()
+		if len(t.Args) > 3 {
+			n = to64(c.coerceInt(arg(3)))
+		}
+		c.x.regHeap("arr.bv8", SBV8, SBV64)
+		arr := sel(c.x.heapArr(c.st, "arr.bv8"), p.sRef())
+		if !strings.Contains(arr, "q!") && len(arr) > 40 {
+			arr = c.x.smt.Name("marr", "(Array "+SBV64+" "+SBV8+")", arr)
+		}
+		c.x.smt.fresh++
+		q := fmt.Sprintf("q!m!%d", c.x.smt.fresh)
+		inRange := and(app("bvule", p.sOff(), q), app("bvult", q, app("bvadd", p.sOff(), n)))
+		body := eq(sel(arr, q), app("sbyte", s.S(), app("bvadd", c0, app("bvsub", q, p.sOff()))))
+		return boolVal(fmt.Sprintf("(forall ((%s %s)) (! (=> %s %s) :pattern ((select %s %s))))", q, SBV64, inRange, body, arr, q))
 	case "isPrefix":
 		a, b := arg(0), arg(1)
 		return boolVal(c.isPrefix(a, b))
